@@ -55,7 +55,12 @@ EXERCISED = (
     "expire during a long outage; long host names and serials in discovery answers; an eager "
     "task factory on the loop; close() directly after send(); update checks submitted while "
     "init() is still waiting for the console; hours of heartbeat silence; caller-supplied "
-    "headers with every meaningful address")
+    "headers with every meaningful address; warnings turned into errors (python -W error); "
+    "subscribers registered from inside the connected notification; listeners that only the "
+    "subscription keeps alive; frames addressed to other clients; more than a hundred consoles "
+    "answering a search; zones added at the console during an outage; retry lifetimes of an "
+    "hour and outages of many minutes; held messages expiring while a connection attempt is "
+    "still in flight")
 
 T = """You are helping to evaluate a verification harness by producing a *subtle, realistic regression* in a Python library.
 
